@@ -359,7 +359,16 @@ def check_C15(ctx):
     fams = []
     for nm, alpha, extra in [("arr", "OpsArrNoMove", ARR), ("cnt", "OpsCnt", dict(kinds=["n"], init=[]))]:
         fams.append(dict(name="undo-" + nm, alphabet=alpha, clients="Seq2", editors=E2, feat='{"idle", "undo"}', maxundo=3, maxedits=3, weight=4, **extra))
-    viols = sim_families(ctx, fams, C15_TAGS, n)
+    # one editor, a passive peer, many syncs (so the editor collects its own tombstones before it undoes): every undo/redo
+    # must still reach the peer. Text/tree/object undo against CONCURRENT remote edits are listed findings and stay out.
+    one = '{"c1"}'
+    for nm, alpha, extra in [("txt", "OpsTxtNoStyle", TXT), ("treet", "OpsTreeTextNoStyle", TREE)]:
+        fams.append(dict(name="undo1p-" + nm, alphabet=alpha, clients="Seq2", editors=one, feat='{"idle", "undo"}', maxundo=4, maxedits=3, maxsyncs=10,
+                         weight=3, **extra))
+    viols = sim_families(ctx, [f for f in fams if not f["name"].startswith("undo1p-")], C15_TAGS, n)
+    # text and tree are compared as character/XML content, not as internal chunking (ConvergedN / RefEquivN)
+    viols += sim_families(ctx, [f for f in fams if f["name"].startswith("undo1p-")],
+                          {"ConvergedN", "RefEquivN", "SyncNeverFails", "UndoRedoNeverFails", "CloneEqRoot", "LogReplayable"}, n)
     if ctx.counters.get("undos", 0) == 0:
         raise Infra("vacuous: no undo executed")
     fresh, known = split_known(ctx, viols)
@@ -525,11 +534,90 @@ def check_C16(ctx):
     build_harness(ctx)
     quick = ctx.tier == "quick"
     viols = fg_part(ctx, 60 if quick else 1500, FG_TAGS | C04_TAGS | {"Converged", "RefEquiv", "SyncNeverFails", "LogReplayable"})
+    viols += stress_part(ctx, procs=6 if quick else 16, runs=6 if quick else 60)
     fresh, known = split_known(ctx, viols)
     return "model_checking", fresh, known, mc_cov(ctx), [
+        "free-running half: N clients x M documents with bursts of late (snapshot-fed) attachers and background compaction attempts run truly in parallel under the "
+        "race detector with random yields at every lock boundary; StressTrace.tla decides Completion, LockOrder (per goroutine), LogDense, NoDuplicateRow, "
+        "PerActorDense, Converged, RefEquiv, BuildEquiv on the recorded trace; a DATA RACE report is a violation. The workload only inserts (counters, object sets, "
+        "array appends, text appends): deletions under concurrency run into the listed GC-order findings",
         "deadlock freedom, lock order and push-lock discipline: exhaustive on YorkieFG.tla for the listed scenarios (3-4 concurrent requests), "
         "TLC-generated schedules forced on the real server through the gate scheduler and validated; "
         "data-race freedom is not decided by the specification (DESIGN.md section 8)"]
+
+
+def harness_only_races(stderr):
+    """Returns the text of the first race report in which BOTH conflicting accesses are made by harness code
+    (top frame in package main or verif/harness), else ''. Such a report says nothing about yorkie."""
+    import re as _re
+    for rep in stderr.split("=================="):
+        if "DATA RACE" not in rep:
+            continue
+        tops = []
+        lines = rep.splitlines()
+        for i, ln in enumerate(lines):
+            if _re.match(r"^(Write|Read|Previous write|Previous read|Atomic write|Atomic read|Previous atomic \w+) at ", ln.strip()) and i + 1 < len(lines):
+                tops.append(lines[i + 1].strip())
+        if tops and all(t.startswith("main.") or "verif/harness" in t for t in tops):
+            return rep
+    return ""
+
+
+def stress_part(ctx, procs, runs):
+    """C16 free-running half: `yvh stress` (race build) in several processes; traces validated by StressTrace.tla."""
+    import subprocess
+    yr = build_harness(ctx, race=True)
+    d = ctx.sub("stress")
+    ps = []
+    for i in range(procs):
+        out = os.path.join(d, "stress-%d.ndjson" % i)
+        cmd = [yr, "stress", "-out", out, "-runs", str(runs), "-seed", str(ctx.seed * 1000 + i), "-clients", str(3 + i % 3), "-late", str(6 + 3 * (i % 2)),
+               "-docs", str(1 + i % 2), "-ops", str(20 + 10 * (i % 3))]
+        ps.append((out, subprocess.Popen(cmd, stdout=subprocess.PIPE, stderr=subprocess.PIPE, text=True)))
+    viols, traces = [], []
+    for out, p in ps:
+        try:
+            so, se = p.communicate(timeout=3000)
+        except subprocess.TimeoutExpired:
+            p.kill()
+            raise Infra("stress driver timed out")
+        if "DATA RACE" in se:
+            mine = harness_only_races(se)
+            if mine:
+                raise Infra("data race inside the harness itself (not a verdict about yorkie):\n" + mine[:3000])
+            viols.append({"property": "C16", "tag": "RaceDetected", "family": "stress", "behaviour": None, "errors": [se[:4000]], "seed": ctx.seed})
+        elif "fatal error: concurrent map" in se:
+            viols.append({"property": "C16", "tag": "ConcurrentMapAccess", "family": "stress", "behaviour": None, "errors": [se[:4000]], "seed": ctx.seed})
+        elif p.returncode != 0:
+            raise Infra("stress driver failed: " + se[-3000:])
+        if os.path.exists(out) and os.path.getsize(out) > 0 and p.returncode == 0:
+            traces.append(out)
+        ctx.count("behaviours_executed", runs)
+    for v in validate(ctx, traces, module="StressTrace", cfg="stress_trace.cfg"):
+        viols.append({"property": "C16", "tag": v["tag"], "family": "stress", "behaviour": None, "run": v.get("run"), "trace_line": v["line"],
+                      "trace_file": os.path.basename(v["trace"]), "errors": [], "seed": ctx.seed})
+    ctx.count("traces_validated", procs * runs)
+    nlock = ncall = nested = 0
+    for t in traces[:2]:
+        held = {}
+        for line in open(t):
+            e = json.loads(line)
+            if e["ev"] == "call":
+                ncall += 1
+            if e["ev"] == "lock":
+                nlock += 1
+                g = e["gid"]
+                if e["op"] == "wait" and held.get(g):
+                    nested += 1
+                if e["op"] == "acquired":
+                    held[g] = held.get(g, 0) + 1
+                if e["op"] == "released":
+                    held[g] = held.get(g, 0) - 1
+    if nested == 0 and not viols:
+        raise Infra("vacuous: no nested lock acquisition observed in the stress traces")
+    ctx.samples.append({"family": "stress", "processes": procs, "runs_per_process": runs, "calls_in_first_two_traces": ncall,
+                        "lock_events_in_first_two_traces": nlock, "nested_lock_waits_in_first_two_traces": nested})
+    return viols
 
 
 C05_TAGS = {"NoDuplicateRow", "PushedExactlyOnce", "PerSessionOrdered", "NoGapBelowCheckpoint", "DeliveredOnce", "SyncNeverFails",
@@ -707,6 +795,12 @@ def check_C17(ctx):
         cmd = [yr, "pubsub", "-out", out, "-runs", str(runs), "-seed", str(ctx.seed * 1000 + i)]
         if i % 4 == 3:
             cmd.append("-stall")
+        procs.append((out, subprocess.Popen(cmd, stdout=subprocess.PIPE, stderr=subprocess.PIPE, text=True)))
+    # the lost wake-up between the last unsubscribe (which closes the key's batch publisher) and a new subscribe:
+    # on 48 keys per run a watcher subscribes while a churner keeps being the last watcher that leaves
+    for i in range(2 if quick else 6):
+        out = os.path.join(d, "trace-lw-%d.ndjson" % i)
+        cmd = [yr, "pubsub", "-out", out, "-runs", str(8 if quick else 60), "-seed", str(ctx.seed * 1000 + 500 + i), "-lastwatcher", "48"]
         procs.append((out, subprocess.Popen(cmd, stdout=subprocess.PIPE, stderr=subprocess.PIPE, text=True)))
     traces = []
     viols = []
